@@ -93,6 +93,9 @@ func (n *InfluxDBOutNode) runOut([]byte) error {
 			edge.NewTimedForwardReceiver(n.timer, n),
 		),
 	)
+	// Stop the write buffer only once all the input has been consumed,
+	// otherwise points still waiting on the incoming edge are dropped.
+	defer n.wb.flushAndAbort()
 	return consumer.Consume()
 }
 
@@ -144,8 +147,7 @@ func (n *InfluxDBOutNode) DeleteGroup(d edge.DeleteGroupMessage) (edge.Message, 
 func (n *InfluxDBOutNode) Done() {}
 
 func (n *InfluxDBOutNode) stopOut() {
-	n.wb.flush()
-	n.wb.abort()
+	// The write buffer is flushed and stopped by runOut after the incoming edge is drained.
 }
 
 func (n *InfluxDBOutNode) write(db, rp string, batch edge.BufferedBatchMessage) error {
@@ -249,6 +251,12 @@ func (w *writeBuffer) flush() {
 func (w *writeBuffer) abort() {
 	close(w.stopping)
 	w.wg.Wait()
+}
+
+// flushAndAbort writes all buffered points and stops the write buffer.
+func (w *writeBuffer) flushAndAbort() {
+	w.flush()
+	w.abort()
 }
 
 func (w *writeBuffer) run() {
